@@ -148,6 +148,7 @@ def stepOp (sys : Sys) (op : Json) : Sys × Json :=
          (s1, acc.2 ++ [(idr.1, idr.2, en)])) (s, [])
        let t := processEvent (srchOf s' c n now) n ev withEn
        (s', (treeJ t).setObjVal! "spec" spec))
+  | "sleep" => (sys, okJ (Json.bool true))
   | o => (sys, errJ ("unknown op " ++ o))
 
 def handleLoc (c : Json) : Json :=
